@@ -61,6 +61,16 @@ class Wildcard(Base):
         """__str__."""
         return self.line
 
+    def __hash__(self) -> int:
+        """__hash__."""
+        return self.line.__hash__()
+
+    def __eq__(self, other) -> bool:
+        """== equality."""
+        if self.__class__ == other.__class__:
+            return self.__hash__() == other.__hash__()
+        return False
+
     # =========================== property ===========================
 
     @property
